@@ -226,4 +226,63 @@ theorem lent_exclusive (P : TIter.Params) (F : TIterFacts P) (s : TIter.State) (
     have : 1 ≤ s.free.count c := List.count_pos_iff.mpr hf
     omega
 
+/-- transparency from the ThreadedIter facts (statement explained at `Props.C10.C10_threaded_transparent`; the base split is the data source: item `i` of pass `p` is
+chunk `i` of the partition `parts p`, see `iterParams`).  In every reachable state of the iterator —
+i.e. under every interleaving of the prefetch thread with the wrapper's calls, spurious wake-ups
+included — the chunks handed to the caller so far in the current pass are an initial segment of the
+base split's chunk sequence for that pass, each delivered item is a chunk of it, and `Next` reports the
+end of the pass only when the whole sequence has been handed out.  After a successful `BeforeFirst` the
+next pass starts with nothing delivered. -/
+theorem threaded_transparent_of_facts (B : Nat → Nat → List Chunk) (parts : Nat → Nat × Nat)
+    (F : TIterFacts (iterParams B parts)) (s : TIter.State) (h : TIter.Reachable (iterParams B parts) s) :
+    (s.delivered.filterMap (chunkOf B parts) <+: B (parts s.pass).1 (parts s.pass).2) ∧
+    (∀ it ∈ s.delivered, (chunkOf B parts it).isSome = true) ∧
+    (∀ e s', TIter.step (iterParams B parts) s e = some s' → s'.ret = .nextEnd →
+      s.delivered.filterMap (chunkOf B parts) = B (parts s.pass).1 (parts s.pass).2) ∧
+    (∀ s', TIter.step (iterParams B parts) s .xStep = some s' → s.xloc = .bExc1 → s'.ret = .ok →
+      s'.pass = s'.bfPass + 1 ∧ s'.delivered = []) := by
+  have ho := F.order s h
+  have hp := F.produced s h
+  have hch := prodList_chunks B parts s.pass s.pidx
+  refine ⟨?_, ?_, ?_, ?_⟩
+  · have : s.delivered.filterMap (chunkOf B parts) ++
+        (TIter.qitems s ++ TIter.optList s.pitem).filterMap (chunkOf B parts) =
+        (B (parts s.pass).1 (parts s.pass).2).take s.pidx := by
+      rw [← List.filterMap_append, ← List.append_assoc, ho, hp, hch]
+    exact List.IsPrefix.trans ⟨_, this⟩ (List.take_prefix _ _)
+  · intro it hit
+    apply prodList_all_chunks B parts s.pass s.pidx
+    rw [← hp, ← ho]
+    simp [hit]
+  · intro e s' hst hret
+    have hnt := F.noThrow (iterParams_noThrow B parts).1 (iterParams_noThrow B parts).2 s h
+    obtain ⟨hend, hdel⟩ := F.endSound s s' e h hst hret hnt
+    have hfin := F.srcEnd s h hend
+    have hge : (B (parts s.pass).1 (parts s.pass).2).length ≤ s.pidx := by
+      simp only [iterParams] at hfin
+      split at hfin
+      · cases hfin
+      · omega
+    rw [hdel, hp, hch, List.take_of_length_le hge]
+  · intro s' hst hx hr
+    exact F.freshPass s s' h hst hx hr
+
+/-- **No data race on the base split or on a lent chunk** (for the code in VERIF_REPO; needs the repair
+of F5: `Gen.Wrap.resetOnCaller = false`).  In every reachable state of the wrapper + iterator system:
+the calling thread is never inside the base split — neither while the prefetch thread is in the produce
+callback (`NextBatchEx`) nor during a transition in which it runs the rewind callback (`BeforeFirst`,
+`ResetPartition`) —, and the chunk the caller works on (`ExtractNext*`, reading the blob) is neither the
+cell the prefetch thread is filling nor in its queue or free list (the cell part uses C07_cells). -/
+theorem race_free_of_facts (P : TIter.Params) (F : TIterFacts P) (s : TW) (h : WReachable P s) :
+    ¬ (producerInBase s = true ∧ s.callerInBase = true) ∧
+    (∀ e, rewindsNow P s e = true → s.callerInBase = false) ∧
+    (∀ c, s.touching = some c → s.it.pcell ≠ some c ∧ c ∉ TIter.qcells s.it ∧ c ∉ s.it.free) := by
+  have hcb := caller_never_in_base (by decide) P s h
+  refine ⟨?_, ?_, ?_⟩
+  · rw [hcb]; simp
+  · intro _ _; exact hcb
+  · intro c hc
+    exact lent_exclusive P F s.it (wreach_iter P s h) c (touching_lent P s h c hc)
+
+
 end DmlcModel.Wrap
